@@ -2,6 +2,7 @@
 package props
 
 import (
+	_ "go.amzn.com/verifh/c10"
 	_ "go.amzn.com/verifh/c11"
 	_ "go.amzn.com/verifh/smoke"
 )
